@@ -490,7 +490,7 @@ def guard_drop(fns, src, nmax, which='ArrayConsumer', name=None):
 
 
 @guarded
-def op_try_from_iter(fns, src, nmax, name=None, boxed=False):
+def op_try_from_iter(fns, src, nmax, name=None, boxed=False, entry=None):
     """try_from_iter / try_boxed_from_iter with a caller-supplied source that may panic in next() or size_hint() at every call"""
     N, J, C, LO, HI = syms('N', 'J', 'count', 'hint_lo', 'hint_hi')
     res = Result(name or 'try_from_iter', ['C04', 'C07'], 'N <= %d, source yields count <= N+2 items, size_hint unconstrained, next()/size_hint() may panic at every call' % nmax)
@@ -502,7 +502,7 @@ def op_try_from_iter(fns, src, nmax, name=None, boxed=False):
     has_hi = z3.Bool('hint_has_hi')
     src_it = {'kind': 'source', 'count': C, 'yielded': bv(0), 'ended': z3.BoolVal(False),
               'hint': {0: LO, 1: Enum('Some', {0: HI})}}
-    fn = ex.find_fn('GenericArray::<T, N>::try_boxed_from_iter' if boxed else 'GenericArray::<T, N>::try_from_iter')
+    fn = ex.find_fn(entry or ('GenericArray::<T, N>::try_boxed_from_iter' if boxed else 'GenericArray::<T, N>::try_from_iter'))
     if fn is None:
         raise NotImplementedError('function not found')
     t0, paths, unw = time.time(), 0, 0
@@ -515,6 +515,8 @@ def op_try_from_iter(fns, src, nmax, name=None, boxed=False):
             paths += 1
             unw += kind == 'unwind'
             inA = ULT(J, N)
+            if entry and kind == 'ret' and not (isinstance(val, Enum) and val.variant in ('Ok', 'Err')):
+                val = Enum('Ok', {0: val})      # infallible entry point (FromIterator::from_iter): a wrong count ends in a panic instead of Err
             for blk, owner in s2.blocks.items():
                 okb = (owner == 'freed') or (owner == 'boxed' and kind == 'ret' and val.variant == 'Ok')
                 ex.require(s2, z3.BoolVal(okb), 'heap block neither freed nor owned by the returned Box when the operation ends (leak)', 'end(%s)' % kind)
